@@ -108,6 +108,41 @@ for _ in range(25):
         m._send_ffd(pid, data, addr); return m.calls
     add("MachineController_send_ffd %s %s %s %s %d" % (L(buf), L(pid), L([int(b) for b in bytearray(data)]), L(addr), len(data) + 1), exc(h))
 
+# ---- third round -------------------------------------------------------------------------------------
+from rig.machine_control.scp_connection import SCPConnection
+class RecKw(MachineController):
+    def __init__(self, buf):
+        self.calls = []
+        self._scp_data_length = buf
+    def _send_scp(self, *args, **kw):
+        self.calls.append(tuple(int(a) for a in args) + (int(kw["arg1"]), int(kw["arg2"]), int(kw["arg3"]),
+                          [int(b) for b in bytearray(kw["data"])], int(kw["expected_args"])))
+for _ in range(25):
+    buf = rng.choice([4, 5, 7, 8, 9, 16, 256])
+    data = bytes(rng.getrandbits(8) for _ in range(rng.choice([0, 4, 8, 12, 16, 20, 7, 3, 40])))
+    addr, x, y, link = rng.choice([0, 4, 8, 1024, 6, 1]), rng.randint(0, 7), rng.randint(0, 7), rng.randint(0, 5)
+    m = RecKw(buf)
+    def h():
+        MachineController.write_across_link.__wrapped__(m, addr, data, x, y, link) if hasattr(MachineController.write_across_link, "__wrapped__") else m.write_across_link(addr, data, x, y, link)
+        return m.calls
+    add("MachineController_write_across_link %s %s %s %s %s %s %d" % (L(buf), L(addr), L([int(b) for b in bytearray(data)]), L(x), L(y), L(link), len(data) + 1), exc(h))
+for _ in range(30):
+    buf = rng.choice([1, 2, 3, 4, 5, 8, 16, 256])
+    n = rng.choice([0, 1, 2, 3, 4, 5, 8, 9, 17, 33])
+    addr, x, y, p = rng.randint(0, 70), rng.randint(0, 7), rng.randint(0, 7), rng.randint(0, 17)
+    conn = SCPConnection.__new__(SCPConnection)
+    got = []
+    conn.send_scp_burst = lambda bs, ws, calls: got.extend(calls)
+    data = bytes(rng.getrandbits(8) for _ in range(n))
+    def hw():
+        del got[:]; conn.write(buf, 1, x, y, p, addr, data)
+        return [(c.x, c.y, c.p, int(c.cmd), c.arg1, c.arg2, int(c.arg3), [int(b) for b in bytearray(c.data)]) for c in got]
+    add("SCPConnection_write_packets %s %s %s %s %s %s %d" % (L(addr), L([int(b) for b in bytearray(data)]), L(buf), L(x), L(y), L(p), n + 1), exc(hw))
+    def hr():
+        del got[:]; conn.read(buf, 1, x, y, p, addr, n)
+        return [(c.x, c.y, c.p, int(c.cmd), c.arg1, c.arg2, int(c.arg3)) for c in got]
+    add("SCPConnection_read_packets %s %s %s %s %s %s %d" % (L(n), L(buf), L(x), L(y), L(p), L(addr), n + 1), exc(hr))
+
 class Parent(object):
     _freed = False
 def mk(s, e, off):
@@ -138,6 +173,136 @@ for _ in range(40):
         w = v[slice(a, b, c)]; return ((w._start_address, w._end_address),) + st(v)   # NB after the constructor's clipping
     add("(fun r => match r with | Except.ok ((a, b), t) => Except.ok ((a, max a b), t) | Except.error e => Except.error e) (SlicedMemoryIO_getitem %s (%s, %s, %s))" % (args, O(a), O(b), O(c)), exc(g))
 
+from rig.utils.contexts import ContextMixin
+class RecSig(MachineController):
+    def __init__(self):
+        ContextMixin.__init__(self, {})
+        self.calls = []
+    def _send_scp(self, *args):
+        self.calls.append(tuple(int(a) for a in args))
+        class R(object):
+            arg1 = 5
+        return R()
+for sig in list(range(-2, 18)) + [255]:
+    app = rng.randint(0, 255)
+    m = RecSig()
+    def hs():
+        m.send_signal(sig, app); return m.calls
+    add("MachineController_send_signal %s %s" % (L(sig), L(app)), exc(hs))
+    m2 = RecSig()
+    def hc():
+        m2.count_cores_in_state(sig, app); return m2.calls
+    add("MachineController_count_cores_in_state %s %s" % (L(sig), L(app)), exc(hc))
+def EV(evs):
+    return "[" + ",".join('{name:="%s",ints:=%s,bytes:=%s}' % (n, show(i), show(b)) for n, i, b in evs) + "]"
+from rig.machine_control.packets import SDPPacket, SCPPacket, _unpack_sdp_into_packet
+def B(v): return "true" if v else "false"
+def exc_(f):
+    try:
+        return "Except.ok" + " " + f()
+    except Exception as e:
+        n = type(e).__name__
+        return 'Except.error "%s"' % ("struct.error" if n == "error" else n)
+def sdp_args(p): return " ".join([B(p.reply_expected)] + [L(getattr(p, a)) for a in ("tag", "dest_port", "dest_cpu", "src_port", "src_cpu", "dest_x", "dest_y", "src_x", "src_y")] + [L([int(b) for b in bytearray(p.data)])])
+def sdp_state(p): return [B(p.reply_expected)] + [show(getattr(p, a)) for a in ("tag", "dest_port", "dest_cpu", "src_port", "src_cpu", "dest_x", "dest_y", "src_x", "src_y")] + [show([int(b) for b in bytearray(p.data)])]
+def OI(x): return "none" if x is None else "(some %s)" % L(x)
+def SO(x): return "none" if x is None else "some" + show(x)
+for _ in range(40):
+    r8 = lambda: rng.choice([0, 1, 7, 31, 255, 255, 256, 300, rng.randint(0, 255)])
+    kw = dict(reply_expected=rng.random() < 0.5, tag=r8(), dest_port=rng.randint(0, 9), dest_cpu=rng.randint(0, 40), src_port=rng.randint(0, 9),
+              src_cpu=rng.randint(0, 40), dest_x=r8(), dest_y=r8(), src_x=r8(), src_y=r8(), data=bytes(bytearray(rng.getrandbits(8) for _ in range(rng.randint(0, 5)))))
+    p = SDPPacket(**kw)
+    add("SDPPacket_bytestring " + sdp_args(p), exc_(lambda: "(" + ",".join([show([int(b) for b in bytearray(p.bytestring)])] + sdp_state(p)) + ")"))
+    r32 = lambda: rng.choice([None, 0, 1, 2**32 - 1, 2**32, rng.getrandbits(32)])
+    q = SCPPacket(cmd_rc=rng.choice([0, 3, 65535, 65536]), seq=rng.choice([0, 9, 65535, 70000]), arg1=r32(), arg2=r32(), arg3=r32(), **kw)
+    scp_args = sdp_args(q) + " %s %s %s %s %s" % (L(q.cmd_rc), L(q.seq), OI(q.arg1), OI(q.arg2), OI(q.arg3))
+    scp_state = sdp_state(q) + [show(q.cmd_rc), show(q.seq), SO(q.arg1), SO(q.arg2), SO(q.arg3)]
+    add("SCPPacket_packed_data " + scp_args, exc_(lambda: "(" + ",".join([show([int(b) for b in bytearray(q.packed_data)])] + scp_state) + ")"))
+    add("SCPPacket_bytestring " + scp_args, exc_(lambda: "(" + ",".join([show([int(b) for b in bytearray(q.bytestring)])] + scp_state) + ")"))
+    bs = bytes(bytearray(rng.getrandbits(8) for _ in range(rng.choice([0, 5, 9, 10, 11, 14, 20]))))
+    t = SDPPacket()
+    def hu():
+        _unpack_sdp_into_packet(t, bs); return "(" + ",".join(sdp_state(t)) + ")"
+    add("unpack_sdp_into_packet " + sdp_args(p) + " " + L([int(b) for b in bytearray(bs)]), exc_(hu))
+for _ in range(60):
+    bs = bytes(bytearray(rng.getrandbits(8) for _ in range(rng.choice([0, 9, 10, 12, 13, 14, 17, 18, 21, 22, 25, 26, 30]))))
+    n_args = rng.choice([0, 1, 2, 3, 3, 4, -1])
+    init = SCPPacket()
+    def hf():
+        q = SCPPacket.from_bytestring(bs, n_args)
+        return "(" + ",".join(sdp_state(q) + [show(q.cmd_rc), show(q.seq), SO(q.arg1), SO(q.arg2), SO(q.arg3)]) + ")"
+    add("SCPPacket_from_bytestring false 255 0 0 7 31 0 0 0 0 [] 0 0 none none none %s %s" % (L([int(b) for b in bytearray(bs)]), L(n_args)), exc_(hf))
+    def hg():
+        q = SDPPacket.from_bytestring(bs)
+        return "(" + ",".join(sdp_state(q)) + ")"
+    add("SDPPacket_from_bytestring false 255 0 0 7 31 0 0 0 0 [] %s" % L([int(b) for b in bytearray(bs)]), exc_(hg))
+class RecFill(MachineController):
+    def __init__(self):
+        ContextMixin.__init__(self, {})
+        self.ev = []
+    def _send_scp(self, *args): self.ev.append(("_send_scp", [int(a) for a in args], []))
+    def write(self, address, data, x, y, p=0): self.ev.append(("write", [address, x, y, p], [int(b) for b in bytearray(data)]))
+for _ in range(30):
+    addr, dat, size = rng.choice([0, 4, 8, 5, 6]), rng.choice([0, 1, 255, 256, 300, 0xdeadbeef]), rng.choice([0, 4, 8, 3, 5, 12])
+    x, y, pp = rng.randint(0, 7), rng.randint(0, 7), rng.randint(0, 17)
+    m = RecFill()
+    def hfill():
+        m.fill(addr, dat, size, x, y, pp); return EV(m.ev)
+    add("MachineController_fill %s %s %s %s %s %s" % (L(addr), L(dat), L(size), L(x), L(y), L(pp)), exc_(hfill))
+from rig.place_and_route.utils import _get_minimal_core_reservations
+for _ in range(40):
+    cs = sorted(rng.sample(range(20), rng.randint(0, 8))) if rng.random() < 0.8 else [rng.randint(0, 6) for _ in range(rng.randint(0, 6))]
+    add("get_minimal_core_reservations %s" % L(cs), show([(c.reservation.start, c.reservation.stop) for c in _get_minimal_core_reservations("cores", cs, (1, 2))]))
+from rig.machine_control.machine_controller import unpack_routing_table_entry
+for _ in range(40):
+    n = rng.choice([16, 16, 16, 16, 15, 17, 0])
+    bs = bytearray(rng.getrandbits(8) for _ in range(n))
+    if n == 16 and rng.random() < 0.3:
+        bs[7] = 0xff
+    def hu2():
+        r = unpack_routing_table_entry(bytes(bs))
+        if r is None:
+            return "none"
+        rte, app, core = r
+        return "(some" + show(((sorted(int(x) for x in rte.route), rte.key, rte.mask), app, core)) + ")"
+    add("unpack_routing_table_entry %s" % L([int(b) for b in bs]), exc_(hu2))
+from rig.machine_control import boot as _boot
+class Sock(object):
+    def __init__(self): self.sent = []
+    def send(self, b): self.sent.append(("send", [], [int(x) for x in bytearray(b)]))
+for _ in range(30):
+    vals = [rng.choice([0, 1, 3, 2**32 - 1, 2**32, -1, rng.getrandbits(32)]) for _ in range(4)]
+    data = bytes(bytearray(rng.getrandbits(8) for _ in range(rng.choice([0, 4, 8, 12, 3, 6]))))
+    sk = Sock()
+    def hb():
+        _boot.boot_packet(sk, vals[0], vals[1], vals[2], vals[3], data); return EV(sk.sent)
+    add("boot_packet %s %s %s %s %s %d" % (L(vals[0]), L(vals[1]), L(vals[2]), L(vals[3]), L([int(b) for b in bytearray(data)]), len(data) // 4 + 1), exc_(hb))
+import warnings as _w
+class PRec(object):
+    _freed = False
+    def __init__(self): self.ev = []
+    def _perform_read(self, a, n): self.ev.append(("_perform_read", [a, n], [])); return b"\x07" * 3
+    def _perform_write(self, a, d): self.ev.append(("_perform_write", [a], [int(b) for b in bytearray(d)]))
+for _ in range(60):
+    s_, e_, off = rng.randint(0, 30), rng.randint(0, 40), rng.randint(-5, 45)
+    par = PRec(); v = SlicedMemoryIO(par, s_, e_); v._offset = off
+    args = "%s %s %s" % (L(v._start_address), L(v._end_address), L(off))
+    if rng.random() < 0.5:
+        n = rng.randint(-3, 50)
+        with _w.catch_warnings(record=True) as wl:
+            _w.simplefilter("always")
+            r = v.read(n)
+        evs = ([("warn", [], [])] if wl else []) + par.ev
+        add("SlicedMemoryIO_read %s %s [7, 7, 7]" % (args, L(n)),
+            "(" + ",".join([show([int(b) for b in bytearray(r)])] + [show(x) for x in st(v)] + [EV(evs)]) + ")")
+    else:
+        d = [rng.getrandbits(8) for _ in range(rng.randint(0, 12))]
+        with _w.catch_warnings(record=True) as wl:
+            _w.simplefilter("always")
+            r = v.write(bytes(bytearray(d)))
+        evs = ([("warn", [], [])] if wl else []) + par.ev
+        add("SlicedMemoryIO_write %s %s" % (args, L(d)), "(" + ",".join([show(r)] + [show(x) for x in st(v)] + [EV(evs)]) + ")")
+
 cases = [c for c in cases if c[1] != ""]
 src = "import RigModel.Gen.PyFun\nopen Rig.Gen.PyFun\n" + "".join("#eval %s\n" % c[0] for c in cases)
 HERE = os.path.dirname(os.path.dirname(os.path.abspath(__file__)))
@@ -156,6 +321,7 @@ bad = 0
 if len(got) != len(cases):
     print("count mismatch", len(got), len(cases)); print(out[:3000])
 for (ex, want), g in zip(cases, got):
+    g = g.replace("some ", "some")
     g2 = g.replace(" ", "").replace("Except.ok", "Except.ok ").replace("Except.error", "Except.error ")
     w2 = want.replace(" ", "").replace("Except.ok", "Except.ok ").replace("Except.error", "Except.error ")
     if g2 != w2:
